@@ -22,6 +22,9 @@ import (
 // Engine implements simkit.Engine.
 type Engine struct{}
 
+// LightRuns: tiny runs without pooled library objects (see simkit.RunOne).
+func (Engine) LightRuns() bool { return true }
+
 // Name implements simkit.Engine.
 func (Engine) Name() string { return "oraclesim" }
 
